@@ -282,6 +282,21 @@ func (r *shellRun) simple(w []string, redir, redirTo string) (int, string) {
 	var stdout []byte
 	status := 0
 	signal := ""
+	// launcher words in front of a command (scipipe's Prepend): run the rest
+	for len(w) > 1 {
+		switch w[0] {
+		case "nice":
+			w = w[1:]
+			if len(w) > 1 && w[0] == "-n" {
+				w = w[2:]
+			}
+			continue
+		case "env", "time", "nohup":
+			w = w[1:]
+			continue
+		}
+		break
+	}
 	switch w[0] {
 	case "cd":
 		if len(w) < 2 {
